@@ -28,7 +28,7 @@ def run(run):
         "print_parse_eval_agree is checked only for generated constant SELECT queries (no tables, whitelisted deterministic functions); texts are never executed otherwise",
     ]
     run.obligations_for(["Csvq.Props.C18"])
-    run.stream("c18", 20000 if q else 400000)
+    run.stream("c18", 40000 if q else 400000)
     if not q:
         for k in range(1, 5):
             run.stream("c18", 300000, seed_offset=k)
